@@ -80,6 +80,8 @@ fn one(rep: &mut Reporter, seed: u64, thorough: bool) {
     let local_nid = *local.public_key();
     let nid_index: BTreeMap<NodeId, usize> = remotes.iter().enumerate().map(|(i, r)| (r.nid, i)).collect();
     let mut private_refs_stored = false;
+    // repositories that entered the node's inventory while they were public
+    let mut was_public_in_inventory: Vec<bool> = repos.iter().map(|r| r.private.is_none()).collect();
     svc::drain(&mut node);
 
     for step in 0..nsteps {
@@ -143,6 +145,9 @@ fn one(rep: &mut Reporter, seed: u64, thorough: bool) {
                 80..=84 => {
                     let now = *node.service.clock();
                     node.service.initialize(now).ok();
+                    for (k, r) in repos.iter().enumerate() {
+                        was_public_in_inventory[k] = r.private.is_none();
+                    }
                     json!({"restart(initialize)": true})
                 }
                 85..=92 => {
@@ -160,11 +165,17 @@ fn one(rep: &mut Reporter, seed: u64, thorough: bool) {
                     json!({"visibility_change": {"repo": k, "private_allow": newp}})
                 }
                 _ => {
-                    // seed / add inventory
+                    // add inventory: the CLI (init / seed / publish) only ever does this for a
+                    // repository that is public at that moment
                     let k = rng.usize(repos.len());
-                    let (tx, _rx) = crossbeam_channel::bounded(1);
-                    node.service.command(Command::AddInventory(repos[k].rid, tx));
-                    json!({"add_inventory": k})
+                    if repos[k].private.is_none() {
+                        let (tx, _rx) = crossbeam_channel::bounded(1);
+                        node.service.command(Command::AddInventory(repos[k].rid, tx));
+                        was_public_in_inventory[k] = true;
+                        json!({"add_inventory": k})
+                    } else {
+                        json!({"noop": "add_inventory-of-private-repo-not-generated"})
+                    }
                 }
             }
         });
@@ -214,7 +225,13 @@ fn one(rep: &mut Reporter, seed: u64, thorough: bool) {
                             for rid in inv.inventory.iter() {
                                 if let Some(repo) = repos.iter().find(|x| x.rid == *rid) {
                                     if repo.private.is_some() {
-                                        rep.violation("C11/private-repository-in-own-inventory-announcement", json!({"to_peer": pi, "repo": rid.to_string(), "log": log}));
+                                        let k = repos.iter().position(|x| x.rid == *rid).unwrap();
+                                        let sig = if was_public_in_inventory[k] {
+                                            "C11/private-repository-in-own-inventory-announcement/made-private-after-it-entered-the-inventory"
+                                        } else {
+                                            "C11/private-repository-in-own-inventory-announcement"
+                                        };
+                                        rep.violation(sig, json!({"to_peer": pi, "repo": rid.to_string(), "log": log}));
                                         return;
                                     }
                                 }
